@@ -703,7 +703,7 @@ package gojq
 //@   modifies GH_owned
 //@   ensures fresh(s) && len(s) == l && cap(s) == max(l, c) && (a != nil ==> owned(s))
 //@   ensures forall r int :: {ownedref(r)} r <= oldalloc() ==> ownedref(r) == old(ownedref(r))
-//@   ensures forall k :: {s[k]} 0 <= k && k < l ==> s[k] == nil
+//@   ensures forall k :: {s[k]} 0 <= k && k < cap(s) ==> s[k] == nil
 
 // ---------------------------------------------------------------------------------------
 // C11: consumers of the order
@@ -1436,8 +1436,18 @@ package gojq
 // starts the array counts as owned). The sub-slice must therefore not carry capacity that overlaps the
 // elements of v behind the window.
 // ---------------------------------------------------------------------------------------
+// tailNil(s): the spare capacity of s holds nulls. It is assumed of the arrays an update receives (marked
+// F) and proved of every array the update functions return, so it is an invariant of the arrays one
+// update passes from step to step.
+//@ pred tailNil(s []any) = forall k :: {s[k]} len(s) <= k && k < cap(s) ==> s[k] == nil
 //@ func updateArraySlice(v []any, m map[string]any, path []any, n any, a allocator) (r any, err error)
+//@   property F
+//@   requires tailNil(v)
 //@   property C02
+//@   ensures err == nil && (r is []any) && r != v ==> tailNil(r.([]any))
+// a deletion only marks the elements of the window (deleteEmpty removes them when all paths are done):
+// the array keeps its length, so later paths are still interpreted against the original positions
+//@   ensures len(path) == 0 && (n is struct{}) && err == nil && (r is []any) ==> len(r.([]any)) == len(v)
 //@   flag nosafety
 //@   modifies *
 //@   call update requires (arg0 is []any) && owned(v) && start == 0 && end < len(v) ==> cap(arg0.([]any)) == len(arg0.([]any))
@@ -1464,7 +1474,7 @@ package gojq
 //@   property F
 // ASSUMED invariant of arrays the update owns: their spare capacity holds nulls (make zeroes it, deleteEmpty
 // clears what it cuts off), so an in-place extension exposes nulls
-//@   requires owned(v) ==> forall k :: {v[k]} len(v) <= k && k < cap(v) ==> v[k] == nil
+//@   requires forall k :: {v[k]} len(v) <= k && k < cap(v) ==> v[k] == nil
 //@   property C02
 //@   flag nosafety
 //@   modifies *
@@ -1472,6 +1482,8 @@ package gojq
 //@   ensures len(path) == 0 && !(n is struct{}) && err == nil ==> forall k :: {r.([]any)[k]} 0 <= k && k < len(v) && k != ((i < 0) ? i + len(v) : i) ==> r.([]any)[k] == old(v[k])
 //@   ensures len(path) == 0 && !(n is struct{}) && err == nil ==> forall k :: {r.([]any)[k]} len(v) <= k && k < ((i < 0) ? i + len(v) : i) ==> r.([]any)[k] == nil
 //@   ensures len(path) == 0 && !(n is struct{}) && ((i < 0) ? i + len(v) : i) < 0 ==> err != nil
+// the arrays passed on keep their spare capacity null (with the assumption above: an invariant)
+//@   ensures len(path) == 0 && err == nil && (r is []any) ==> tailNil(r.([]any))
 
 // C14: index, rindex and indices on strings work on the arrays of code points of both strings, so the
 // positions they report are code-point positions (the array functions report positions in their arrays).
